@@ -109,6 +109,74 @@ func streamCalls(fd *ast.FuncDecl) []string {
 	return calls
 }
 
+
+// apiSkeleton: for the exported wrappers of the containers and the map-only entry points of Value.go
+// (the calls Golib/Value/Api.lean models): every call of the body by name, in source order, plus
+// every comparison against an upper-case constant ("==VALUE_TEXT").  It says WHICH constructor a
+// wrapper stores (PutLong stores a DecimalValue, not a LongValue), WHICH type code a typed look-up
+// tests, and that WriteMapValue / ReadMapValue / IntMapValue.WriteValue are tag byte + body.
+var apiMethods = map[string]bool{
+	"WriteMapValue": true, "ReadMapValue": true, "IntMapValue.WriteValue": true,
+	"MapValue.Put": true, "MapValue.PutString": true, "MapValue.PutLong": true, "MapValue.NewList": true, "MapValue.PutAll": true, "MapValue.Clear": true,
+	"MapValue.Get": true, "MapValue.GetString": true, "MapValue.GetBool": true, "MapValue.GetLong": true, "MapValue.GetFloat": true,
+	"MapValue.ContainsKey": true, "MapValue.Size": true, "MapValue.IsEmpty": true,
+	"IntMapValue.Put": true, "IntMapValue.PutString": true, "IntMapValue.PutLong": true, "IntMapValue.NewList": true, "IntMapValue.Clear": true,
+	"IntMapValue.Get": true, "IntMapValue.GetString": true, "IntMapValue.GetBool": true, "IntMapValue.Size": true,
+	"ListValue.Add": true, "ListValue.AddString": true, "ListValue.AddLong": true, "ListValue.Set": true, "ListValue.Clear": true,
+	"ListValue.Get": true, "ListValue.GetString": true, "ListValue.GetBool": true, "ListValue.Size": true,
+}
+
+func apiSkeleton(fd *ast.FuncDecl) []string {
+	out := []string{}
+	if fd.Body == nil {
+		return []string{"?nobody"}
+	}
+	isConst := func(e ast.Expr) (string, bool) {
+		id, ok := e.(*ast.Ident)
+		if !ok || id.Name == "" || id.Name != strings.ToUpper(id.Name) || !strings.ContainsAny(id.Name, "ABCDEFGHIJKLMNOPQRSTUVWXYZ") {
+			return "", false
+		}
+		return id.Name, true
+	}
+	ast.Inspect(fd.Body, func(n ast.Node) bool {
+		switch x := n.(type) {
+		case *ast.CallExpr:
+			switch f := x.Fun.(type) {
+			case *ast.SelectorExpr:
+				out = append(out, f.Sel.Name)
+			case *ast.Ident:
+				out = append(out, f.Name)
+			default:
+				out = append(out, "?call")
+			}
+		case *ast.BinaryExpr:
+			if x.Op == token.EQL || x.Op == token.NEQ {
+				for _, e := range []ast.Expr{x.X, x.Y} {
+					if c, ok := isConst(e); ok {
+						out = append(out, x.Op.String()+c)
+					}
+				}
+			}
+		case *ast.AssignStmt:
+			// this.table = append(…) / this.table[idx] = … / this.table = []interface{}{}: what the list mutators do
+			for _, l := range x.Lhs {
+				switch t := l.(type) {
+				case *ast.SelectorExpr:
+					if t.Sel.Name == "table" {
+						out = append(out, "table=")
+					}
+				case *ast.IndexExpr:
+					if se, ok := t.X.(*ast.SelectorExpr); ok && se.Sel.Name == "table" {
+						out = append(out, "table[]=")
+					}
+				}
+			}
+		}
+		return true
+	})
+	return out
+}
+
 // ---------------------------------------------------------------- package-level state
 
 // stateScan lists, for one package directory, its package-level `var` names and, per function or
@@ -300,6 +368,7 @@ func main() {
 	var consts [][2]string
 	var factory [][2]string
 	writeValue, readValue := []string{"?none"}, []string{"?none"}
+	apiCalls := map[string][]string{}
 
 	var files []string
 	for name := range pkg.Files {
@@ -328,6 +397,9 @@ func main() {
 				}
 			case *ast.FuncDecl:
 				rt := recvType(d)
+				if full := strings.TrimPrefix(rt+"."+d.Name.Name, "."); apiMethods[full] {
+					apiCalls[full] = apiSkeleton(d)
+				}
 				switch {
 				case rt == "" && strings.HasPrefix(d.Name.Name, "New"):
 					if d.Type.Results != nil && len(d.Type.Results.List) == 1 {
@@ -460,6 +532,23 @@ func main() {
 		}
 		parts := strings.SplitN(k, ".", 2)
 		fmt.Fprintf(&b, "(%s, %s, %s)", q(parts[0]), q(parts[1]), strList(guardsSeen[k]))
+	}
+	b.WriteString("]\n\n")
+	b.WriteString("/-- the exported wrappers / look-ups of the containers and the map-only entry points: calls and constant comparisons of the body, in source order -/\ndef apiCalls : List (String × List String) :=\n  [")
+	var ak []string
+	for k := range apiMethods {
+		ak = append(ak, k)
+	}
+	sort.Strings(ak)
+	for i, k := range ak {
+		if i > 0 {
+			b.WriteString(",\n   ")
+		}
+		c, ok := apiCalls[k]
+		if !ok {
+			c = []string{"?missing"}
+		}
+		fmt.Fprintf(&b, "(%s, %s)", q(k), strList(c))
 	}
 	b.WriteString("]\n\n")
 	b.WriteString("/-- package-level `var`s per package, and per function the package-level vars its body mentions\n    (r: read only, w: assigned / incremented / appended to / address taken) -/\n")
